@@ -169,7 +169,7 @@ func init() {
 		ID:   "C15",
 		Race: true,
 		Rule: "cases: (det) groups of 4 generated documents (60 % from a generator biased to ids/anchors/links, out-of-flow boxes broken at page boundaries, string-set/running elements, target-counter, @counter-style, hyphenation in 4 languages, data-URI images, @font-face, tables/flex/grid/columns, pseudo-elements, invalid declarations; 40 % hostile grammar documents of internal/gen; pango or go-text engine), each document rendered in order, re-written, rendered again in reverse order (other history), optionally with one font configuration and one parsed user-agent sheet reused, every group executed a second time in another worker process; (conc) 8 documents rendered sequentially, then by 8 goroutines at once for several rounds with a rotating assignment. All workers are the -race build. Non-trivial: every render of the case completed with a trace, at least one document drew text, and (det, primary copy only) the group produced >= 2 pages in some document; distinct = distinct input.",
-		N:    func(tier string) int { s := sz(tier); return 2*s.det + s.conc },
+		N:    func(tier string) int { s := sz(tier); return 2*s.det + s.conc + s.cold },
 		Gen: func(_ *rand.Rand, i int, tier string) any {
 			return genCase(runSeed(), i, tier)
 		},
